@@ -87,15 +87,15 @@ func startServer() {
 		clients = append(clients, c)
 	}
 	// wait until the listener answers a plain request
-	for try := 0; try < 20; try++ {
-		if _, _, err := exchange(clients[0], nil, 200*time.Millisecond); err == nil {
+	for try := 0; try < 5; try++ {
+		if _, answered, err := exchange(clients[0], nil, 300*time.Millisecond); err == nil && answered {
+			srvErr = nil
 			return
-		} else {
+		} else if err != nil {
 			srvErr = err
+		} else {
+			srvErr = fmt.Errorf("listener does not answer a plain request")
 		}
-	}
-	if srvErr == nil {
-		srvErr = fmt.Errorf("listener does not answer")
 	}
 }
 
@@ -104,67 +104,171 @@ type reply struct {
 	from netip.AddrPort
 }
 
-// exchange sends payload (unless nil) and then a well-formed sentinel from conn and collects
-// every datagram received before the sentinel's reply (recognised by its origin timestamp).
-func exchange(conn *net.UDPConn, payload []byte, timeout time.Duration) (before []reply, sent *reply, err error) {
-	if payload != nil {
-		if _, err = conn.WriteToUDPAddrPort(payload, srvAddr); err != nil {
-			return nil, nil, err
-		}
-	}
+const (
+	firstWait = 1 * time.Second        // for the sentinel's reply (normally well under 1 ms)
+	retryWait = 500 * time.Millisecond // for each of the two re-sent sentinels
+	probeWait = 400 * time.Millisecond // fresh-socket liveness probes after a finding
+)
+
+func newSentinel() (b []byte, tx ntp.Time64) {
 	sentinel++
 	var sp ntp.Packet
 	sp.SetVersion(4)
 	sp.SetMode(ntp.ModeClient)
 	sp.TransmitTime = ntp.Time64{Seconds: 0xfeed0000 | (sentinel >> 16 & 0xffff), Fraction: sentinel<<16 | 0x5e47}
 	sp.ReceiveTime = sp.TransmitTime // basic mode: the reply's origin is this transmit time
-	var sb []byte
-	ntp.EncodePacket(&sb, &sp)
-	if _, err = conn.WriteToUDPAddrPort(sb, srvAddr); err != nil {
-		return nil, nil, err
+	ntp.EncodePacket(&b, &sp)
+	return b, sp.TransmitTime
+}
+
+func isReplyTo(r []byte, tx ntp.Time64) bool {
+	return len(r) >= 48 && binary.BigEndian.Uint32(r[24:]) == tx.Seconds && binary.BigEndian.Uint32(r[28:]) == tx.Fraction
+}
+
+// exchange sends the payloads and then a well-formed sentinel from conn and collects every
+// datagram received before the sentinel's reply (recognised by its origin timestamp). Every
+// wait is bounded: the sentinel is re-sent twice from the same socket; answered=false means
+// that a well-formed request on this socket got no reply within firstWait+2*retryWait.
+func exchange(conn *net.UDPConn, payloads [][]byte, first time.Duration) (before []reply, answered bool, err error) {
+	for _, p := range payloads {
+		if _, err = conn.WriteToUDPAddrPort(p, srvAddr); err != nil {
+			return nil, false, err
+		}
 	}
-	deadline := time.Now().Add(timeout)
 	buf := make([]byte, 4096)
-	for {
-		conn.SetReadDeadline(deadline)
-		n, from, rerr := conn.ReadFromUDPAddrPort(buf)
-		if rerr != nil {
-			return before, nil, rerr
+	var sent []ntp.Time64
+	for try := 0; try < 3; try++ {
+		sb, tx := newSentinel()
+		sent = append(sent, tx)
+		if _, err = conn.WriteToUDPAddrPort(sb, srvAddr); err != nil {
+			return before, false, err
 		}
-		r := reply{b: append([]byte(nil), buf[:n]...), from: from}
-		if n >= 48 && binary.BigEndian.Uint32(r.b[24:]) == sp.TransmitTime.Seconds &&
-			binary.BigEndian.Uint32(r.b[28:]) == sp.TransmitTime.Fraction {
-			return before, &r, nil
+		wait := first
+		if try > 0 {
+			wait = retryWait
 		}
-		before = append(before, r)
+		deadline := time.Now().Add(wait)
+		for {
+			conn.SetReadDeadline(deadline)
+			n, from, rerr := conn.ReadFromUDPAddrPort(buf)
+			if rerr != nil {
+				break // deadline: re-send the sentinel
+			}
+			r := reply{b: append([]byte(nil), buf[:n]...), from: from}
+			mine := false
+			for _, tx := range sent {
+				mine = mine || isReplyTo(r.b, tx)
+			}
+			if mine {
+				// anything that is already queued behind the sentinel's reply (a duplicate reply,
+				// a late reply) belongs to this exchange, not to the next one on this socket
+				for {
+					conn.SetReadDeadline(time.Now().Add(50 * time.Microsecond))
+					n, from, rerr := conn.ReadFromUDPAddrPort(buf)
+					if rerr != nil {
+						break
+					}
+					before = append(before, reply{b: append([]byte(nil), buf[:n]...), from: from})
+				}
+				return before, true, nil
+			}
+			before = append(before, r)
+		}
 	}
+	return before, false, nil
 }
 
 var nextClient int
 
-// dgram runs one datagram through the listener and renders what came back.
-func dgram(payload []byte) string {
+// fetchReply returns the listener's reply to a plain well-formed request (nil if none within
+// firstWait).
+func fetchReply(conn *net.UDPConn) []byte {
+	sb, tx := newSentinel()
+	if _, err := conn.WriteToUDPAddrPort(sb, srvAddr); err != nil {
+		return nil
+	}
+	deadline := time.Now().Add(firstWait)
+	buf := make([]byte, 4096)
+	for {
+		conn.SetReadDeadline(deadline)
+		n, _, err := conn.ReadFromUDPAddrPort(buf)
+		if err != nil {
+			return nil
+		}
+		if isReplyTo(buf[:n], tx) {
+			return append([]byte(nil), buf[:n]...)
+		}
+	}
+}
+
+// replaceClient closes client i and opens a fresh socket (a new source port, hence possibly a
+// different listener socket behind SO_REUSEPORT).
+func replaceClient(i int) {
+	clients[i].Close()
+	c, err := net.ListenUDP("udp4", &net.UDPAddr{IP: net.IPv4(127, 0, 0, 1), Port: 0})
+	if err == nil {
+		clients[i] = c
+	}
+}
+
+// aliveFromFreshSockets: does the listener still answer a plain request from new sockets?
+func aliveFromFreshSockets() int {
+	ok := 0
+	for i := 0; i < 3; i++ {
+		c, err := net.ListenUDP("udp4", &net.UDPAddr{IP: net.IPv4(127, 0, 0, 1), Port: 0})
+		if err != nil {
+			continue
+		}
+		sb, tx := newSentinel()
+		c.WriteToUDPAddrPort(sb, srvAddr)
+		c.SetReadDeadline(time.Now().Add(probeWait))
+		buf := make([]byte, 4096)
+		if n, _, err := c.ReadFromUDPAddrPort(buf); err == nil && isReplyTo(buf[:n], tx) {
+			ok++
+		}
+		c.Close()
+	}
+	return ok
+}
+
+var lastFreshAlive = -1 // result of the liveness probe after the most recent unanswered sentinel
+
+// run sends payloads from the next client socket; on an unanswered sentinel the socket is
+// replaced and the listener probed from fresh sockets (for the failure detail only).
+func run(payloads [][]byte) (before []reply, answered bool, ok bool) {
 	srvOnce.Do(startServer)
 	if srvErr != nil {
-		return "err not-executed"
+		return nil, false, false
 	}
+	i := nextClient % len(clients)
+	nextClient++
+	before, answered, err := exchange(clients[i], payloads, firstWait)
+	if err != nil {
+		replaceClient(i)
+		return nil, false, false
+	}
+	if !answered {
+		lastFreshAlive = aliveFromFreshSockets()
+		replaceClient(i)
+	}
+	return before, answered, true
+}
+
+func shapeOK(r reply) bool {
+	return len(r.b) == 48 && r.b[0] == 36 && r.b[1] == 1 && r.from == srvAddr
+}
+
+// dgram runs one datagram through the listener and renders what came back.
+func dgram(payload []byte) string {
 	if payload == nil {
 		payload = []byte{}
 	}
-	var before []reply
-	var err error
-	for try := 0; try < 3; try++ {
-		conn := clients[nextClient%len(clients)]
-		nextClient++
-		before, _, err = exchange(conn, payload, 2*time.Second)
-		if err == nil {
-			break
-		}
-		// drain anything late before retrying on another socket
-		time.Sleep(50 * time.Millisecond)
-	}
-	if err != nil {
+	before, answered, ok := run([][]byte{payload})
+	if !ok {
 		return "err not-executed"
+	}
+	if !answered {
+		return fmt.Sprintf("ok sentinel-unanswered n=%d", len(before))
 	}
 	if len(before) == 0 {
 		return "ok none"
@@ -179,6 +283,52 @@ func dgram(payload []byte) string {
 		lvm, stratum = int(r.b[0]), int(r.b[1])
 	}
 	return fmt.Sprintf("ok reply n=%d len=%d lvm=%d stratum=%d src=%s", len(before), len(r.b), lvm, stratum, src)
+}
+
+// seq runs several datagrams from one client socket (hence to one listener socket, in order)
+// and attributes the replies to them by origin timestamp = the datagram's transmit timestamp.
+func seq(payloads [][]byte) string {
+	before, answered, ok := run(payloads)
+	if !ok {
+		return "err not-executed"
+	}
+	pat := make([]byte, len(payloads))
+	for i := range pat {
+		pat[i] = '0'
+	}
+	extra, shape := 0, "ok"
+	for _, r := range before {
+		if !shapeOK(r) {
+			shape = "bad"
+		}
+		hit := false
+		match := func(p []byte) bool {
+			return len(p) >= 48 && len(r.b) >= 32 && hex.EncodeToString(r.b[24:32]) == hex.EncodeToString(p[40:48])
+		}
+		for i, p := range payloads { // first matching datagram that has no reply yet
+			if match(p) && pat[i] == '0' {
+				pat[i], hit = '1', true
+				break
+			}
+		}
+		if !hit {
+			for i, p := range payloads { // a second reply to the same datagram
+				if match(p) && pat[i] < '9' {
+					pat[i]++
+					hit = true
+					break
+				}
+			}
+		}
+		if !hit {
+			extra++
+		}
+	}
+	st := "answered"
+	if !answered {
+		st = "unanswered"
+	}
+	return fmt.Sprintf("ok answered=%s extra=%d sentinel=%s shape=%s", pat, extra, st, shape)
 }
 
 // ---------------------------------------------------------------- exec
@@ -234,6 +384,15 @@ func exec(t []string) string {
 			return "bad-op" // authenticated requests are not generated by this command
 		}
 		return dgram(unhex(t[1]))
+	case t[0] == "ip.seq" && len(t) == 3:
+		if t[2] != "nts=0" {
+			return "bad-op"
+		}
+		var ps [][]byte
+		for _, h := range strings.Split(t[1], ",") {
+			ps = append(ps, unhex(h))
+		}
+		return seq(ps)
 	}
 	return "bad-op"
 }
@@ -385,10 +544,33 @@ func gen(c *lib.Ctx) {
 		c.NotExecuted("IP listener on loopback: " + srvErr.Error())
 		return
 	}
-	c.Comment("IP listener on loopback: 256 first bytes x lengths x trailing data")
 	c.Count("listener:started")
 	notExec := 0
+	// After a few unanswered well-formed requests the listener (or some of its sockets) is
+	// damaged; every further case would only wait for its deadline. The findings are recorded,
+	// the rest of the listener part is skipped.
+	const maxUnanswered = 4
+	unanswered, skipped := 0, 0
+	var recent []string // the most recent listener ops (context for a finding)
+	remember := func(op string) {
+		recent = append(recent, op)
+		if len(recent) > 6 {
+			recent = recent[1:]
+		}
+	}
+	reportUnanswered := func(op, ans string, lens []int) {
+		unanswered++
+		c.Count("listener:valid-request-unanswered")
+		c.Fail("C09:listener:valid-request-unanswered",
+			"a well-formed 48-byte client request got no reply: after the datagram(s) of this op, sent from the same client socket (hence to the same listener socket), the well-formed request that followed was not answered within the deadline, not even when re-sent twice",
+			[]string{op}, map[string]any{"got": ans, "datagram_lengths": lens,
+				"fresh_sockets_answered_of_3": lastFreshAlive, "preceding_listener_ops": append([]string{}, recent...)})
+	}
 	send := func(payload []byte, what string) {
+		if unanswered >= maxUnanswered {
+			skipped++
+			return
+		}
 		if len(payload) > 48 && ntsDecodes(payload) {
 			c.Count("skipped:nts-decodable-trailing-data") // out of scope (would need the cookie keys)
 			return
@@ -400,6 +582,12 @@ func gen(c *lib.Ctx) {
 			return
 		}
 		c.Emit(op, ans)
+		if strings.HasPrefix(ans, "ok sentinel-unanswered") {
+			reportUnanswered(op, ans, []int{len(payload)})
+			remember(op)
+			return
+		}
+		remember(op)
 		valid := len(payload) == 48 && wellFormed(payload[0])
 		c.Count(fmt.Sprintf("dgram:%s:%s", what, map[bool]string{true: "answered", false: "silent"}[ans != "ok none"]))
 		if valid {
@@ -422,6 +610,105 @@ func gen(c *lib.Ctx) {
 				[]string{op}, map[string]any{"got": ans, "len": len(payload), "first_byte": b0})
 		}
 	}
+	// sequences on ONE client socket (= one listener socket): rejected datagram(s), then a
+	// well-formed request, then the sentinel. What an earlier datagram leaves behind in the
+	// listener must not change the fate of a later one.
+	c.Comment("IP listener: sequences on one socket (rejected datagrams, then a valid request)")
+	validReq := func() []byte {
+		p := r.Bytes(48)
+		p[0] = []byte{8, 19, 27, 35, 200, 211, 219, 227}[r.Intn(8)]
+		copy(p[32:40], p[40:48]) // receive == transmit timestamp: basic mode, origin = transmit
+		return p
+	}
+	junk := func(ln int) []byte {
+		switch {
+		case ln < 48:
+			return r.Bytes(ln)
+		case ln == 48: // 48 bytes with a first byte that is not a request
+			p := r.Bytes(48)
+			for wellFormed(p[0]) {
+				p[0]++
+			}
+			return p
+		default:
+			p := append(r.Bytes(48), safeGarbage(r, ln-48)...)
+			return p
+		}
+	}
+	sendSeq := func(ps [][]byte, what string) {
+		if unanswered >= maxUnanswered {
+			skipped++
+			return
+		}
+		hs := make([]string, len(ps))
+		lens := make([]int, len(ps))
+		want := make([]byte, len(ps))
+		for i, p := range ps {
+			if len(p) > 48 && ntsDecodes(p) {
+				return
+			}
+			hs[i], lens[i], want[i] = lib.Hex(p), len(p), '0'
+			if len(p) == 48 && wellFormed(p[0]) {
+				want[i] = '1'
+			}
+		}
+		op := fmt.Sprintf("ip.seq %s nts=0", strings.Join(hs, ","))
+		ans := lib.Try(func() string { return exec(strings.Fields(op)) })
+		if ans == "err not-executed" {
+			notExec++
+			return
+		}
+		c.Emit(op, ans)
+		defer remember(op)
+		c.Count("seq:" + what)
+		wantAns := fmt.Sprintf("ok answered=%s extra=0 sentinel=answered shape=ok", want)
+		if ans == wantAns {
+			return
+		}
+		f := strings.Fields(ans)
+		got := ""
+		if len(f) > 1 {
+			got = strings.TrimPrefix(f[1], "answered=")
+		}
+		missing := false
+		for i := range want {
+			if want[i] == '1' && (i >= len(got) || got[i] == '0') {
+				missing = true
+			}
+		}
+		switch {
+		case strings.Contains(ans, "sentinel=unanswered") || missing:
+			reportUnanswered(op, ans, lens)
+		default:
+			c.Fail("C09:listener:sequence:"+what, "replies to a sequence of datagrams on one socket are not exactly one per well-formed request",
+				[]string{op}, map[string]any{"got": ans, "want": wantAns, "datagram_lengths": lens})
+		}
+	}
+	for ln := 0; ln <= 48; ln++ { // every rejected length below 48 (and a 48-byte non-request), then a valid request
+		sendSeq([][]byte{junk(ln), validReq()}, "short-then-valid")
+	}
+	for _, ln := range []int{49, 50, 75, 76, 100, 1000, 2047, 2048, 2049, 2050, 3000, 4096, 9000} {
+		sendSeq([][]byte{junk(ln), validReq()}, "long-then-valid")
+	}
+	for i := 0; i < c.Scale(60, 1500); i++ { // mixed: valid / rejected in random order, 2..6 datagrams
+		n := 2 + r.Intn(5)
+		var ps [][]byte
+		for k := 0; k < n; k++ {
+			switch r.Intn(5) {
+			case 0, 1:
+				ps = append(ps, validReq())
+			case 2:
+				ps = append(ps, junk(r.Intn(48)))
+			case 3:
+				ps = append(ps, junk(48))
+			default:
+				ps = append(ps, junk([]int{49, 76, 500, 2048, 2049, 5000}[r.Intn(6)]))
+			}
+		}
+		sendSeq(ps, "mixed")
+	}
+
+	c.Comment("IP listener on loopback: 256 first bytes x lengths x trailing data")
 	lengths := []int{0, 1, 47, 48, 49, 76, 1024, 2048, 2049}
 	for b0 := 0; b0 < 256; b0++ {
 		for _, ln := range lengths {
@@ -485,13 +772,13 @@ func gen(c *lib.Ctx) {
 
 	// reflection: a genuine reply of the listener, sent back to it, is not answered
 	c.Comment("reflection: the listener's own replies sent back to it")
-	for i := 0; i < 64; i++ {
-		_, rep, err := exchange(clients[i%len(clients)], nil, 2*time.Second)
-		if err != nil || rep == nil {
+	for i := 0; i < 64 && unanswered < maxUnanswered; i++ {
+		rep := fetchReply(clients[i%len(clients)])
+		if rep == nil {
 			notExec++
 			continue
 		}
-		send(rep.b, "reflected-reply")
+		send(rep, "reflected-reply")
 	}
 	// nothing may be left over on any client socket: every reply went to the socket that sent
 	// the request (a reply to a different port would have been counted against another exchange
@@ -508,9 +795,12 @@ func gen(c *lib.Ctx) {
 		}
 	}
 	c.Count("listener:stray-check")
-	if stray > 0 && notExec == 0 {
+	if stray > 0 && notExec == 0 && unanswered == 0 {
 		c.Fail("C09:listener:stray-reply", "datagrams arrived on client sockets outside any exchange (a reply sent twice or to the wrong port)",
 			[]string{"ip.dgram 23" + strings.Repeat("00", 47) + " nts=0"}, map[string]any{"stray": stray})
+	}
+	if skipped > 0 {
+		c.NotExecuted(fmt.Sprintf("%d listener cases skipped after %d well-formed requests went unanswered (recorded as oracle failures)", skipped, unanswered))
 	}
 	if notExec > 0 {
 		c.NotExecuted(fmt.Sprintf("%d loopback exchanges got no sentinel reply within the timeout (sandbox)", notExec))
